@@ -138,3 +138,46 @@ def c13(res: CheckResult) -> None:
         rng.shuffle(pairs)
         pairs = pairs[:2500]
     pair_unit(res, "programs of C01/C02/C09/C16 rendered with def and with async def", pairs, ic)
+
+
+# ---- definition-time machine ---------------------------------------------------------------------------
+from icv import def_families as DF  # noqa
+from icv.checks_def import def_unit  # noqa
+
+DEF_ASSUMPTIONS = COMMON_ASSUMPTIONS + [
+    "method resolution orders are supplied to the specification by CPython (C3 linearisation is trusted, "
+    "cross-checked against cls.__mro__)",
+    "subclassing is exercised through DBC/DBCMeta only (the documentation declares inheritance without it undefined)"]
+
+
+@check("C04")
+def c04(res: CheckResult) -> None:
+    ic = C.load_icontract()
+    rng = random.Random(res.seed)
+    res.assumptions = DEF_ASSUMPTIONS
+    def_unit(res, "inheritance DAGs (chains, gaps, siblings, two bases, diamond) x contract placements x member kinds",
+             list(DF.fam_hier(res.tier, rng)), ic, verdicts=True, rng=rng)
+    def_unit(res, "diamonds where one branch inherits and the other overrides, invariants introduced at different levels",
+             list(DF.fam_shadow(res.tier, rng)), ic, verdicts=True, rng=rng)
+
+
+@check("C17")
+def c17(res: CheckResult) -> None:
+    ic = C.load_icontract()
+    rng = random.Random(res.seed)
+    res.assumptions = DEF_ASSUMPTIONS
+    def_unit(res, "invariant lists along definition histories (every check_on combination)",
+             list(DF.fam_inv_lists(res.tier, rng)), ic, rng=rng)
+    def_unit(res, "inheritance DAGs x contract placements: every earlier class re-projected after each step",
+             list(DF.fam_hier(res.tier, rng)), ic, rng=rng)
+
+
+@check("C18")
+def c18(res: CheckResult) -> None:
+    ic = C.load_icontract()
+    rng = random.Random(res.seed)
+    res.assumptions = DEF_ASSUMPTIONS
+    def_unit(res, "introspected lists = effective contracts; hand evaluation of the lists vs real calls (all truth "
+                  "assignments); registration hook", list(DF.fam_hier(res.tier, rng)), ic, verdicts=True, rng=rng)
+    def_unit(res, "decorator stacks with foreign wrappers: one checker, lists readable through the stack",
+             list(DF.fam_stacks(res.tier, rng)), ic, verdicts=True, rng=rng)
